@@ -117,16 +117,24 @@ def theory_configs(r, tier):
             '(declare-const bug Int)\n(assert (> a 1))\n'
             '(assert (< bug a))\n(assert (> a 7))\n(assert (< a 9))\n'
             '(assert (> bug 3))\n(check-sat)\n(exit)\n')
+    # the explicit limit scales with the load of the machine: a candidate
+    # that does NOT reproduce the hang must never run into it
+    import runs
+    calib = runs.calibrate()
+    T = max(3.0, round(calib, 1))
     for st in ('ddmin', 'hierarchical'):
         out.append((hang, {'mode': 'contains', 'markers': ['bug'],
-                           'accept': {'ticks_ms': 400}},
-                    ['--strategy', st, '-j', '1', '--timeout', '1.0',
+                           'accept': {'ticks_ms': int(400 * T)}},
+                    ['--strategy', st, '-j', '1', '--timeout', str(T),
                      '--disable-all', '--erase-node'],
                     {'strategy': st, 'jobs': 1, 'n': 'H' + st,
-                     'delays': [0, 150, 250]}))
+                     'delays': [0, int(150 * T), int(250 * T)]}))
     # a slow reference solver (-c) under automatic time limits: the limit of
     # the reference solver derives from ITS golden run
-    for st in ('ddmin', ):
+    # (the automatic limit is (golden + 1 s) * 1.5: its margin over the
+    # delays used here is 1.3 s and cannot be scaled, so the configuration is
+    # left out on a machine too loaded for that)
+    for st in (('ddmin', ) if calib < 12 else ()):
         out.append((hang.replace('(check-sat)',
                                  '(assert (> a 2))\n(assert (> a 3))\n'
                                  '(assert (> a 4))\n(check-sat)'),
@@ -137,8 +145,8 @@ def theory_configs(r, tier):
                      'cc_spec': {'mode': 'contains', 'markers': ['bug'],
                                  'accept': {'out': 'unsat\n', 'exit': 0},
                                  'reject': {'out': 'sat\n', 'exit': 0},
-                                 'sleep_ms': 1000},
-                     'cc_delays': [0, 500, 1000]}))
+                                 'sleep_ms': 1200},
+                     'cc_delays': [0, 400, 800]}))
     return out
 
 
